@@ -10,7 +10,7 @@
    ParseUint / ParseFloat are modelled on the alphabet readNumericLiteral can
    hand them (digits . e E + - x X).  No proofs here. *)
 From Coq Require Import String Ascii.
-From SQ Require Import Model.Base Gen.ParserTables Gen.Lexer Model.SqlParse.
+From SQ Require Import Model.Base Gen.ParserTables Gen.Lexer Model.SqlParse Model.ParseBudget.
 Open Scope Z_scope.
 
 (* ---------- unicode ---------- *)
@@ -267,6 +267,7 @@ Definition read_numeric (s : list byte) : option (token * Z) :=
 Inductive tokout :=
 | TOk (l : list token)
 | TErr (l : list token)      (* an error, with the tokens returned next to it *)
+| TBadChar                   (* "unexpected char": the error, and nil for the tokens *)
 | TPanic
 | TFuel.
 
@@ -319,7 +320,7 @@ Fixpoint tok_loop (fuel : nat) (s : list byte) (i : Z) (acc : list token) : toko
           | Ok (bt, bl) => if bl =? -1 then TErr (rev acc) else tok_loop k s (i + bl + l) (stoken tok_tIdentifier bt :: acc)
           end
         end
-      else TErr []
+      else TBadChar
     end
   end.
 
@@ -330,10 +331,13 @@ Definition tokenize (s : list byte) : tokout := tok_loop (S (length s)) s 0 [].
 Definition parse_string (budget : list token -> nat) (s : list byte) : outcome :=
   match tokenize s with
   | TOk toks => parse_tokens (budget toks) toks
-  | TErr _ => Reject VZero
+  | TErr _ | TBadChar => Reject VZero
   | TPanic => BadTable "tokenizer"
   | TFuel => OutOfFuel
   end.
+
+(* sql.Parse *)
+Definition parse_sql (s : list byte) : outcome := parse_string parse_budget s.
 
 (* ---------- the harness's rendering of a token list (harness/cmd/implrun `tokens`) ---------- *)
 Open Scope string_scope.
@@ -343,6 +347,7 @@ Definition show_tokout (o : tokout) : string :=
   match o with
   | TOk l => "tokens ok " ++ join_str ";" (map show_token l)
   | TErr l => "tokens err " ++ join_str ";" (map show_token l)
+  | TBadChar => "tokens err "
   | TPanic => "tokens PANIC"
   | TFuel => "tokens DIVERGE"
   end.
